@@ -4,8 +4,8 @@ CONSTANTS
   Queries = {1, 2, 3, 4}
   Deps <- DepsDef
   Roots <- Roots2
-  SubscribeLate = TRUE
-  MaxAbandon = 0
+  SubscribeLate = FALSE
+  MaxAbandon = 1
   SilentAbandon = FALSE
 PROPERTY Progress
 CHECK_DEADLOCK FALSE
